@@ -1,4 +1,5 @@
 #!/bin/bash
+export VERIF_EVIDENCE_DIR=/verif/.cache/seed-evidence
 # seedtest.sh PATCH_DIR CHECK...  -- apply a seeded change to /repo, run the named checks (quick), undo it.
 D=$1; shift
 cd /repo && git apply $D/patch.diff || { echo "patch does not apply"; exit 2; }
